@@ -507,6 +507,6 @@ impl Prop for C14 {
 	}
 
 	fn floors(_tier: Tier) -> Vec<(&'static str, u64)> {
-		vec![("accepted", 60_000), ("rejected", 20_000), ("rejected-ill-formed-utf8", 5_000), ("accepted-non-ascii", 10_000), ("eq-str-against-equivalent-variant", 5_000)]
+		vec![("accepted", 60_000), ("rejected", 20_000), ("rejected-ill-formed-utf8", 5_000), ("accepted-non-ascii", 7_000), ("eq-str-against-equivalent-variant", 5_000)]
 	}
 }
